@@ -111,28 +111,26 @@ impl Actor for CmdActor {
     }
 }
 
-fn free_udp_port(start: u16) -> u16 {
-    let mut p = start;
-    loop {
-        if let Ok(s) = UdpSocket::bind((Ipv4Addr::LOCALHOST, p)) {
-            drop(s);
-            return p;
-        }
-        p = p.wrapping_add(1).max(20000);
-    }
+/// a UDP port the OS considers free right now (ephemeral range, chosen by the OS: concurrent harness processes do not
+/// walk the same port sequence)
+fn free_udp_port() -> u16 {
+    let s = UdpSocket::bind((Ipv4Addr::LOCALHOST, 0)).expect("bind udp port 0");
+    s.local_addr().expect("local addr").port()
 }
-
-static NEXT_PORT: std::sync::atomic::AtomicU32 = std::sync::atomic::AtomicU32::new(31000);
 
 pub fn run_scenario(sc: &Value) -> Value {
     let n = sc["actors"].as_array().map(|a| a.len()).unwrap_or(0);
     let mut ports = vec![];
-    for _ in 0..=n {
-        let start = NEXT_PORT.fetch_add(7, std::sync::atomic::Ordering::SeqCst) as u16;
-        ports.push(free_udp_port(start));
+    // the harness's own socket keeps its port; the actors' ports are bound by spawn() a moment later
+    let hsock = UdpSocket::bind((Ipv4Addr::LOCALHOST, 0)).expect("bind harness socket");
+    let hport = hsock.local_addr().expect("local addr").port();
+    while ports.len() < n {
+        let p = free_udp_port();
+        if p != hport && !ports.contains(&p) {
+            ports.push(p);
+        }
     }
-    let hport = ports[n];
-    let hsock = UdpSocket::bind((Ipv4Addr::LOCALHOST, hport)).expect("bind harness socket");
+    ports.push(hport);
     hsock.set_read_timeout(Some(Duration::from_millis(5))).unwrap();
     let ids: Vec<Id> = (0..n).map(|i| Id::from(SocketAddrV4::new(Ipv4Addr::LOCALHOST, ports[i]))).collect();
     let hid = Id::from(SocketAddrV4::new(Ipv4Addr::LOCALHOST, hport));
